@@ -46,11 +46,19 @@ PROPS["C13"] = dict(engine="E14", level="fault_enumeration",
    level_text="Enumeration of the (period, latency, consumption delay) grid and of shutdown phases, with exact virtual-time oracles: at most one list in flight, next list no earlier than 0.9P and (lister) no later than 1.1P after consumption, at least floor(T/cycle)-1 lists in T, shutdown completes at once and leaves no goroutine.",
    design_ref="DESIGN.md 5.13", technique="runtime monitoring: timestamped List() calls at the fake client in synctest virtual time, cadence/concurrency/liveness-as-bounded-progress oracles, goroutine census")
 
+PROPS["C05"] = dict(engine="E6", level="exploration",
+   rule="one case = seeded scenario on the root kit (cache + root subscription + publisher, the engine is the only producer so the published sequence is known exactly): 200-600 uniquely versioned events in bursts of <=25 with a quiescence barrier between bursts; a growing tree of Subscribe/Clone to depth 3 (up to ~24 nodes), subscribers added at barriers and, from a second goroutine, in the middle of bursts; leaves closed at barriers; logger perturbation at the publisher/subscription points; 1 in 8 cases in race mode (collaborators without shared state). distinct = distinct scenario descriptor; non-trivial = at least one leaf received events and was compared with the published sequence.",
+   assumptions=["backlog stays below the event buffer (<=25 in flight), so exact delivery applies", "the root kit wires cache/subscription/publisher exactly as builder.Create does"],
+   floors={"any": {"leaves": 500, "events-received": 50000, "mid-burst-subscribers": 50}},
+   level_text="Seeded exploration of (tree shape x subscription time x schedule perturbation); oracle per leaf: received sequence is the contiguous, duplicate-free suffix of the published sequence starting no later than the first event whose publication began after Subscribe returned, with object identity; cache clause: Cache().Get right after each received event never returns an older version.",
+   design_ref="DESIGN.md 5.5", technique="runtime monitoring: unique-id event log at every leaf vs the published sequence (exactly-once/ordering checker), race detector on")
+
 ENGINES = {
  "E1": dict(path="harness/engines/e01_cache_test.go", kind="direct drive of the cache actor vs reference model R-cache; exhaustive small universe + random walks"),
  "E4": dict(path="harness/engines/e04_converge_test.go", kind="real controller over fault-injecting fake API server; convergence oracles at virtual-time quiescence"),
  "E5": dict(path="harness/engines/e05_watch_test.go", kind="real controller, relists disabled, enumerated watch faults at every position"),
  "E15": dict(path="harness/engines/e15_failstop_test.go", kind="enumerated list failures at the k-th list with a subscriber tree attached; watch failures via E5 cases"),
  "E14": dict(path="harness/engines/e14_cadence_test.go", kind="lister alone and real controller over the (period, latency, consumption) grid in virtual time"),
+ "E6": dict(path="harness/engines/e06_pubsub_test.go", kind="root kit + Subscribe/Clone trees; per-leaf sequence checker"),
 }
 NA = {}
